@@ -1,8 +1,10 @@
-from math import copysign, isnan
+import struct
+from math import copysign, inf, isnan
 from typing import cast
 
 from xdsl.dialects import arith, builtin
 from xdsl.dialects.builtin import FloatAttr, IntegerAttr
+from xdsl.ir import Attribute
 from xdsl.interpreter import (
     Interpreter,
     InterpreterFunctions,
@@ -31,6 +33,22 @@ def _sign_extend(value: int, from_bitwidth: int) -> int:
     """
     sign_bit = 1 << (from_bitwidth - 1)
     return (value & (sign_bit - 1)) - (value & sign_bit)
+
+
+def _round_float(value: float, typ: Attribute) -> float:
+    """
+    Rounds a result computed in double precision to the precision of the result type.
+    """
+    if isinstance(typ, builtin.Float32Type):
+        fmt = "<f"
+    elif isinstance(typ, builtin.Float16Type):
+        fmt = "<e"
+    else:
+        return value
+    try:
+        return struct.unpack(fmt, struct.pack(fmt, value))[0]
+    except OverflowError:
+        return copysign(inf, value)
 
 
 def _truncate(value: int, to_bitwidth: int) -> int:
@@ -97,15 +115,15 @@ class ArithFunctions(InterpreterFunctions):
 
     @impl(arith.SubfOp)
     def run_subf(self, interpreter: Interpreter, op: arith.SubfOp, args: PythonValues):
-        return (args[0] - args[1],)
+        return (_round_float(args[0] - args[1], op.result.type),)
 
     @impl(arith.AddfOp)
     def run_addf(self, interpreter: Interpreter, op: arith.AddfOp, args: PythonValues):
-        return (args[0] + args[1],)
+        return (_round_float(args[0] + args[1], op.result.type),)
 
     @impl(arith.MulfOp)
     def run_mulf(self, interpreter: Interpreter, op: arith.MulfOp, args: PythonValues):
-        return (args[0] * args[1],)
+        return (_round_float(args[0] * args[1], op.result.type),)
 
     @impl(arith.MinimumfOp)
     def run_minimumf(
